@@ -35,6 +35,9 @@ def parseBasic : List String → Option Op
   | ["N"] => some .N
   | ["F"] => some .F
   | ["Y", _] => some .Y
+  | ["XM"] => some .XM
+  | ["XT"] => some .XT
+  | ["XP"] => some .XP
   | _ => none
 
 structure PSt where
